@@ -937,7 +937,7 @@ func drawPlan(t *rapid.T, s *rt.Section, maxSteps int) Plan {
 		o.MaxStmts = 4
 		o.MaxDepth = 3
 		o.Dice = true
-		o.SingleKeyDicts = true // nothing compared may depend on Go map order
+		o.SingleKeyDicts = false // since fix 6269628 a dict prints and lists its entries in key order
 		o.CoC, o.WoD, o.Fate, o.DC = spec.Cfg.CoC, spec.Cfg.WoD, spec.Cfg.Fate, spec.Cfg.DC
 		o.DefaultSides = spec.Cfg.DefSide != ""
 		o.RandMethods = true // shuffle / rand / randSize: a seeded VM replays them, an unseeded one draws from the process-wide generator
